@@ -47,7 +47,7 @@ MANIFEST = {
 EXPLANATION = MANIFEST["level_text"]
 TRUSTED = [
     "pyvc VC generator (exception forks, try/except/finally, ContextVar model, generator-based context managers)",
-    "z3 5.1.0 / cvc5 1.0.3",
+    "z3 5.1.0 / cvc5 1.4.0",
     "falcon / pyarrow contracts listed in contracts/C15.py (TRUSTED)",
 ]
 ASSUMPTIONS = [
